@@ -141,6 +141,22 @@ def registry(bs=16, state=None, buf='bytes|memoryview'):
                      ensures=ens({'cached': 'self._mac_tag == %s' % TAGV, 'none': 'result is None'}),
                      sets={'self._mac_tag': TAGV}, modifies=['self._mac_tag'], opaque=OPQ,
                      options={'on_raise_modifies': ['self._mac_tag']}))
+    # ------------------------------------------------------------------ copy (C19, GH#238)
+    # The clone is a NEW object with a NEW native CBC object and a NEW cache bytearray; every Python-side field has the
+    # original's value and the new CBC object stands at the original's chaining value (so both continue identically and
+    # independently); the original is untouched.  (The message-level invariant of a clone would need a history ghost that
+    # cannot be attached to a real class: see NOT PROVED below.)
+    same = ['digest_size', '_mac_tag', '_update_after_digest', '_max_size', '_k1', '_k2', '_cache_n', '_last_ct', '_last_pt', '_data_size',
+            '_key', '_block_size']
+    reg.add(Contract(CM + '.copy', params={}, raises={},
+                     ensures={'fresh': 'result is not self', 'fresh_cbc': 'result._cbc is not self._cbc', 'fresh_cache': 'result._cache is not self._cache',
+                              'cache': 'bytes(result._cache) == bytes(self._cache)',
+                              'fields': 'conj(%s)' % ', '.join('result.%s == self.%s' % (f, f) for f in same),
+                              'shared_stateless': 'result._ecb is self._ecb and result._factory is self._factory',
+                              'cbc_id': 'conj(result._cbc.g_fid == self._cbc.g_fid, result._cbc.g_key == self._cbc.g_key, result._cbc.g_bs == self._cbc.g_bs)',
+                              'chaining': 'spec.aead1.cbc_chain(%s, %s, result._cbc.g_iv, result._cbc.g_fed) == %s' % (FID, KEY, CH(FED))},
+                     modifies=[], opaque=OPQ + ['spec.aead1.bx']))
+
     # ------------------------------------------------------------------ construction (C03: sub-keys K1, K2)
     L0 = 'spec.aead1.E(%s, %s, bytes(%s))' % (FID, KEY, BS)          # L = CIPH_K(0^b)
     RBV = 135 if bs == 16 else 27
@@ -159,8 +175,88 @@ def registry(bs=16, state=None, buf='bytes|memoryview'):
         instances={'exit': ['%s(%s)' % (DBLC, L0), '%s(self._k1)' % DBLC]},
         modifies=['self.*'], options={'assume_valid': False}, opaque=['spec.aead1.omac', 'spec.aead1.bx', 'spec.aead1.dbl']),
         dict(fields, _mac_tag='none', _update_after_digest='bool'))
+
+    # new(key, msg=None, ciphermod=None, cipher_params=None, mac_len=None, update_after_digest=False): parameter domain
+    R = lambda c_: c_.replace('self.', 'result.')       # noqa
+    badlen = 'ciphermod is not None and mac_len is not None and (mac_len < 4 or mac_len > ciphermod.block_size)'
+    new_ens = {k: R(v) for k, v in INV.items()}
+    new_ens.update({'message': R('%s == (bytes(msg) if msg is not None else b"")' % M), 'no_tag': 'result._mac_tag is None',
+                    'mac_len': 'result.digest_size == (mac_len if mac_len is not None else %s)' % BS,
+                    'flag': 'result._update_after_digest == update_after_digest',
+                    'cipher': R('conj(%s == ciphermod.g_fid, %s == bytes(key))' % (FID, KEY))})
+    reg.add(Contract(C + 'new', params={'key': 'buffer', 'msg': 'none|bytes|memoryview', 'ciphermod': 'none|obj:' + nat.FACTORY,
+                                        'cipher_params': 'none|dict()', 'mac_len': 'none|int', 'update_after_digest': 'bool'},
+                     raises={'TypeError': ('iff', 'ciphermod is None or (not (%s) and ciphermod.block_size not in (8, 16))' % badlen),
+                             'ValueError': ('iff', badlen)},
+                     result='obj:' + CM, ensures=new_ens, modifies=[], options={'assume_valid': False},
+                     opaque=OPQ + ['spec.aead1.bx']))
+    return reg
+
+
+LEMMAS = ['xor_ac', 'xor_zero', 'omac_split', 'dbl_mod', 'dbl_code']
+
+
+def _reg_with(target, params, *args):
+    reg = registry(*args)
+    c = reg.contracts[target]
+    c.params = dict(c.params, **params)
     return reg
 
 
 def units(prop, tier):
-    return []
+    from vf.pyunit import pyvc_unit
+    import functools
+    out = []
+    quick = tier == 'quick'
+
+    def u(name, targets, bs, state=None, params=None, tag=''):
+        uid = 'cmac.%s%s@bs%d%s' % (name, tag, bs, ('/' + state) if state else '')
+        if params:
+            assert len(targets) == 1
+            out.append(pyvc_unit(prop, uid, functools.partial(_reg_with, targets[0], params, bs, state), targets))
+        else:
+            out.append(pyvc_unit(prop, uid, functools.partial(registry, bs, state), targets))
+    m = lambda x: CM + '.' + x        # noqa
+    if prop == 'C03':
+        for bs in (16, 8):
+            u('lemmas', ['spec.aead1.lemma_%s%d' % (l, bs) for l in LEMMAS], bs)
+            for st in STATES:
+                if quick and bs == 8 and st != 'absorbing':
+                    continue
+                u('digest', [m('digest')], bs, st)
+                u('verify', [m('verify')], bs, st, {'mac_tag': 'bytes'} if quick else None)
+        for bs, k, msg in ([(16, 'bytes', 'none'), (8, 'bytearray', 'bytes')] if quick else
+                           [(b, k, g) for b in (16, 8) for k in ('bytes', 'bytearray', 'memoryview') for g in ('none', 'bytes', 'memoryview')]):
+            u('__init__', [m('__init__')], bs, None, {'key': k, 'msg': msg}, '[key:%s,msg:%s]' % (k, msg))
+        u('__init__', [m('__init__')], 12, None, {'key': 'bytes', 'msg': 'none'}, '[bad-block-size]')
+        u('new', [C + 'new'], 16, None, {'key': 'bytes'} if quick else None)
+        u('new', [C + 'new'], 12, None, {'key': 'bytes', 'msg': 'none'}, '[bad-block-size]')
+        if not quick:
+            u('new', [C + 'new'], 8)
+    elif prop == 'C09':
+        for bs in (16, 8):
+            u('_update', [m('_update')], bs, None, {'data_block': 'bytes|bytearray'} if quick and bs == 8 else None)
+            for b in (['bytes', 'memoryview'] if not quick else ['bytes'] if bs == 16 else ['memoryview']):
+                u('update', [m('update')], bs, 'absorbing', {'msg': b}, '[%s]' % b)
+        u('update', [m('update')], 16 if quick else 8, 'update_after_digest', {'msg': 'bytes'}, '[bytes]')
+    elif prop == 'C10':
+        for st in STATES:
+            u('update', [m('update')], 16, st, {'msg': 'bytes'}, '[bytes]')
+            u('digest', [m('digest')], 16, st)
+            u('verify', [m('verify')], 16, st, {'mac_tag': 'bytes'})
+            u('copy', [m('copy')], 16, st)
+    elif prop == 'C19':
+        for bs in (16, 8):
+            u('copy', [m('copy')], bs)
+    elif prop == 'C01':
+        u('digest', [m('digest')], 16, 'absorbing')
+        u('verify', [m('verify')], 16, 'absorbing', {'mac_tag': 'bytes'} if quick else None)
+    return out
+
+
+# NOT PROVED: CMAC.update with a bytearray argument: the body takes memoryview(msg) of it; the engine has no memoryview over a
+#   mutable bytearray (bytes and memoryview arguments are proved; EAX passes its output= bytearray here).
+# NOT PROVED: update()/digest() contracts on a CLONE: the message-level invariant of a clone needs the history of the original
+#   (its CBC object starts at the chaining value with nothing fed); copy() itself is proved: new object, new native CBC object
+#   standing at the same chaining value, new cache bytearray, all other fields equal, original unchanged.
+# NOT PROVED: hexdigest / hexverify (string formatting, binascii: outside the subset).
